@@ -166,13 +166,13 @@ def handle : Handler
   | ["c17.rt", f, auto, b, p, supplied] =>
     match parseInt f, body? b, optDict? p with
     | some maxF, some body, some p =>
-      match publish17 maxF (codecOf supplied) body (p.getD []) with
+      match publish17 maxF (codecOf supplied) body p with
       | .error e => some (showErr e)
       | .ok (caller, frames) =>
         match buildMessage (auto = "1") id (.deliver [] :: frames.drop 1) with
         | .msg m rest =>
           let r := m.readBody
-          some s!"caller={showDict caller} frames={frames.length} raw={showVal m.body} dec={showVal r.1} props={showDict m.properties} rest={rest.length}"
+          some s!"caller={match caller with | some d => showDict d | none => "N"} frames={frames.length} raw={showVal m.body} dec={showVal r.1} props={showDict m.properties} rest={rest.length}"
         | .wait => some "consumer:wait"
         | .notYet => some "consumer:not-yet"
         | .dropped _ => some "consumer:dropped"
